@@ -84,3 +84,67 @@ func c08RequestReuse(t *testing.T, c *ev.Collector) {
 		}
 	}
 }
+
+// c08NilConstructors: WithCompression / WithAcceptCompression with nil
+// constructors are documented no-ops: a handler or client configured with them
+// behaves as one configured without (differential oracle: same messages, no
+// error, no panic), for the name of the default algorithm and for a new name.
+func c08NilConstructors(t *testing.T, c *ev.Collector) {
+	idx := 0
+	for _, p := range AllProtos {
+		for _, kind := range []Kind{KUnary, KServer, KClient} {
+			for _, name := range []string{"gzip", "br"} {
+				for _, side := range []string{"handler", "client"} {
+					for _, comp := range []Comp{CompDefault, CompSendGzip} {
+						idx++
+						if !ev.Mine(idx) {
+							continue
+						}
+						key := fmt.Sprintf("nil-constructors/%s/%s/%s/%s/%s", p, kind, name, side, comp)
+						c.Case(key, true)
+						Bubble(t, func() {
+							cfg := Cfg{Proto: p, Comp: comp, Kind: kind, HTTP: 2}
+							var hopts []connect.HandlerOption
+							var copts []connect.ClientOption
+							if side == "handler" {
+								hopts = append(hopts, connect.WithCompression(name, nil, nil))
+							} else {
+								copts = append(copts, connect.WithAcceptCompression(name, nil, nil))
+							}
+							h := NewHandler(kind, func(ctx context.Context, s HStream) error {
+								n := 0
+								for {
+									if _, err := s.Receive(); err != nil {
+										break
+									}
+									n++
+								}
+								return s.Send(&BV{Value: Payload(700, byte('a'+n))})
+							}, append(cfg.HandlerOptions(), hopts...)...)
+							tr := &memhttp.Transport{Handler: h, Proto: 2, SyncCloseReq: true}
+							cl := NewClient(tr, cfg, copts...)
+							var res CallResult
+							g := Guarded(func() { res = RunCall(context.Background(), cl, kind, [][]byte{Payload(600, 'q')}, nil) }, tr)
+							c.AddTransitions(3)
+							c.AddStates(3)
+							c.AddTraces(1)
+							tags := []string{"proto=" + p.String(), "kind=" + kind.String(), "nil-constructors"}
+							ex := tr.Last()
+							switch {
+							case g.Hung || g.Panicked:
+								c.Violation("TestC08", "documented-no-op", "hang-or-panic", tags, key, "%s: hung=%v panic=%v\n%s", key, g.Hung, g.Panic, g.Stack)
+								BailIfStuck(c, g)
+							case ex != nil && ex.Panicked:
+								c.Violation("TestC08", "documented-no-op", "handler-panic", tags, key, "%s: the handler panicked: %v (client saw %v)", key, ex.Panic, res.Err)
+							case res.Err != nil || len(res.Msgs) != 1 || len(res.Msgs[0]) == 0:
+								c.Violation("TestC08", "documented-no-op", "call-failed", tags, key, "%s: err=%v messages=%d; without the option the call succeeds", key, res.Err, len(res.Msgs))
+							default:
+								c.Outcome("ok")
+							}
+						})
+					}
+				}
+			}
+		}
+	}
+}
